@@ -747,6 +747,40 @@ Proof. vm_compute. reflexivity. Qed.
 Example c04_witness_repaired : fst (deliver (run c04_victim_log) c04_forged) = run c04_victim_log.
 Proof. vm_compute. reflexivity. Qed.
 
+(** * Open finding: the hash field of an [Operation] is not validated.
+
+    [validate_operation] never compares [Operation.hash] with [header.hash()].  If an operation
+    carrying a *foreign* hash field is accepted (here: author 2's own first operation stored under
+    the hash of author 1's prune point), the genuine prune point is later answered
+    [AlreadyExists] and log-prune runs although the prune point is not in the log: author 1's
+    log is emptied and its height drops.  The history satisfies everything in [wf_history]
+    except "hash field = header hash". *)
+Definition pairs_ok (ds : list op) : bool := forallb (fun x => forallb (wf_pair x) ds) ds.
+Definition ids_ok (ds : list op) : bool := forallb wf_one ds.
+
+Lemma wf_history_split : forall ds, wf_history ds = ids_ok ds && pairs_ok ds.
+Proof. reflexivity. Qed.
+
+Definition foreign_hash_witness : list op :=
+  [ w_op 1 1 0 1 None false true; w_op 1 1 1 2 (Some 1) false true; w_op 1 1 2 3 (Some 2) false true;
+    mkOp 2 1 0 4 5 None false true true ].
+Definition foreign_hash_last : op := w_op 1 1 3 4 (Some 3) true true.
+
+Theorem foreign_hash_field_refuted :
+  pairs_ok (foreign_hash_witness ++ [foreign_hash_last]) = true /\
+  height (run foreign_hash_witness) 1 1 = Some 2 /\
+  height (run (foreign_hash_witness ++ [foreign_hash_last])) 1 1 = None.
+Proof. vm_compute. repeat split; reflexivity. Qed.
+
+(** Outside that class (every validated operation carries its own header hash) the height
+    theorem holds: this is [height_monotone] with the hypothesis spelled out. *)
+Theorem height_monotone_outside_known : forall ds o a l,
+  pairs_ok (ds ++ [o]) = true -> ids_ok (ds ++ [o]) = true ->
+  opt_le (height (run ds) a l) (height (run (ds ++ [o])) a l) = true.
+Proof.
+  intros ds o a l Hp Hi. apply height_monotone. rewrite wf_history_split, Hi, Hp. reflexivity.
+Qed.
+
 (** * Non-vacuity: a well-formed history with two authors, a prune point, an out-of-order
     delivery, a duplicate and a forged copy; the theorems' hypotheses hold for it and the
     resulting store is not trivial. *)
